@@ -4,6 +4,7 @@ package main
 
 import (
 	"verifsim/core"
+	"verifsim/engines/e4store"
 	"verifsim/engines/e5schema"
 	"verifsim/engines/e6resource"
 )
@@ -19,6 +20,7 @@ func main() {
 		}
 	}
 
+	reg(e4store.Engine{}, "C19", "C09")
 	reg(e5schema.Engine{}, "C14", "C15", "C16")
 	reg(e6resource.Engine{}, "C17", "C18")
 
